@@ -30,10 +30,14 @@ def gen_ops(rng, n):
 def op_cases(rng, tier):
     cs = []
     # loads chosen so that sizing ends bracketed, clamped low, clamped high
-    for k, (scale, kind) in enumerate([(300.0, "balanced"), (9000.0, "balanced"), (60000.0, "heating"), (4000.0, "cooling")] * (1 if tier == "quick" else 4)):
-        cs.append({"nx": rng.choice([1, 2]), "ny": rng.choice([1, 2]), "months": 12, "H": 100.0, "heights": [60.0, 97.5, 135.0],
+    for k, (scale, kind, dims) in enumerate([(300.0, "balanced", None), (9000.0, "balanced", (1, 2)), (60000.0, "heating", None), (7000.0, "cooling", (1, 2))] * (1 if tier == "quick" else 4)):
+        ops = gen_ops(rng, rng.randrange(3, 7))
+        if not any(o[0] == "size" for o in ops):          # every sequence sizes at least once (bracketed: cases 2 and 4; clamped: 1 and 3)
+            ops.insert(rng.randrange(len(ops)), ["size"])
+        nx, ny = dims if dims else (rng.choice([1, 2]), rng.choice([1, 2]))
+        cs.append({"nx": nx, "ny": ny, "months": 12, "H": 100.0, "heights": [60.0, 97.5, 135.0],
                    "loads": {"kind": kind, "scale": scale, "seed": k + 1}, "pipe": ["SINGLEUTUBE", "COAXIAL", "DOUBLEUTUBEPARALLEL"][k % 3],
-                   "ops": gen_ops(rng, rng.randrange(3, 7))})
+                   "ops": ops})
     return cs
 
 
@@ -99,7 +103,14 @@ def run(chk):
                 mops.append(f"SetH {q(op[1])}")
                 continue
             if op[0] == "size":
-                mops.append(f"Size Hybrid {qlist(rec['evals'])} {q(rec['H'])}")
+                kind_ = "clamped_low" if abs(rec["H"] - 60.0) < 1e-9 else "clamped_high" if abs(rec["H"] - 135.0) < 1e-9 else "bracketed"
+                dist = chk.cov.setdefault("input_distribution", {})
+                dist["size/" + kind_] = dist.get("size/" + kind_, 0) + 1
+                # the height the object reports after sizing is the one the root solver returned (not a rounded or otherwise edited copy)
+                if rec.get("root") is not None and rec["H"] != rec["root"] and len(chk.violations) < 4:
+                    chk.violation("ghe-ops", c, {"after": op, "height_stored": rec["H"], "height_returned_by_the_root_solver": rec["root"]},
+                                  "the reported borehole height is the sized height (the root of the excess / the clamped bound)")
+                mops.append(f"Size Hybrid {qlist(rec['evals'])} {q(rec['root'] if rec.get('root') is not None else rec['H'])}")
             else:
                 mops.append(f"Simulate {'Hybrid' if op[0] == 'hybrid' else 'Hourly'}")
             nontrivial += 1
